@@ -39,7 +39,8 @@ THOROUGH_RUNS = 200_000
 EXPECT_PROBES = ["msg_aged_exactly_max", "msg_aged_max_plus_1us", "silence_exactly_max_age", "silence_max_minus_1us",
                  "failure_at_block_end", "backoff_doubled", "backoff_hit_max", "reset_on_success", "reset_after_not_working",
                  "timer_and_msg_same_instant", "pool_variant", "failure_while_not_working", "results_back_to_back",
-                 "messages_stamped_in_other_utc_offset", "failing_streak_of_50"]
+                 "messages_stamped_in_other_utc_offset", "failing_streak_of_50",
+                 "sample_resent_unchanged"]
 
 BAD_KINDS = ["bad_state", "bad_relay", "critical_error", "nan_capacity", "stale_1us", "stale_1s"]
 NW, UN, WK = "NOT_WORKING", "UNCERTAIN", "WORKING"
@@ -260,6 +261,16 @@ def scenario(sim: Sim) -> None:
             health = "good" if exact else "ambiguous"
         elif kind == "aged_90pct":
             age = b.max_age_us * 9 // 10 - slack if b.max_age_us * 9 // 10 > slack else 0
+        elif kind == "repeat":
+            # the device re-sends its last healthy sample unchanged (same timestamp): it is as old as it is
+            prev_ = b.last[stream]
+            age = sim.now_us - prev_["msg_ts"] if prev_ is not None and "msg_ts" in prev_ else 0
+            if age > b.max_age_us + slack:
+                health = "bad"
+                sim.nontrivial = True
+            elif age >= b.max_age_us - slack and not (exact and age <= b.max_age_us):
+                health = "ambiguous"
+            sim.probe("sample_resent_unchanged")
         prev = b.last[stream]
         if prev is not None and sim.now_us - prev["t"] == b.max_age_us:
             sim.probe("timer_and_msg_same_instant")
@@ -270,7 +281,7 @@ def scenario(sim: Sim) -> None:
                 b.blk_ambiguous = True
         if prev is not None and sim.now_us - prev["t"] == b.max_age_us - 1:
             sim.probe("silence_max_minus_1us")
-        b.last[stream] = {"t": sim.now_us, "kind": kind, "health": health}
+        b.last[stream] = {"t": sim.now_us, "kind": kind, "health": health, "msg_ts": sim.now_us - age}
         if health == "good" and b.blk_until is not None and sim.now_us >= b.blk_until + slack and b.last_msg_after_block_end is None:
             b.last_msg_after_block_end = sim.now_us
         sim.ev("msg", f"{stream}:{kind}", cid)
@@ -423,6 +434,24 @@ def scenario(sim: Sim) -> None:
                         # events pile up behind a stall: the order in which the tracker sees a failure relative
                         # to its own status changes is no longer known to the harness
                         ob.blk_ambiguous = True
+        if ch.chance("stuck_sender", 0.08):
+            # a device that keeps re-sending one and the same healthy sample (stuck gateway): the data gets older and
+            # older; once it is older than the maximum age the battery must not be reported working any more
+            b = bats[ch.draw("stuck_bat", nbat)]
+            stream = ["bat", "inv"][ch.draw("stuck_stream", 2)]
+            other = "inv" if stream == "bat" else "bat"
+            await _until(sim, sim.now_us + (3 if exact else 5_000))
+            deliver(b, stream, "healthy")
+            for _i in range(6):
+                await _until(sim, sim.now_us + max_age_us // 3 + (3 if exact else 5_000))
+                for ob in bats:
+                    for s_ in ("bat", "inv"):
+                        if (ob, s_) != (b, stream):
+                            await _until(sim, sim.now_us + (3 if exact else 5_000))
+                            deliver(ob, s_, "healthy")
+                await _until(sim, sim.now_us + (3 if exact else 5_000))
+                deliver(b, stream, "repeat")
+            del other
         if exact and ch.chance("long_failing_streak", 0.05):
             # a long run: every command to one battery fails, each result arriving right after the previous blocking
             # period ended, dozens of times in a row, while its data stays healthy (fed well inside the maximum age)
